@@ -229,7 +229,7 @@ async def attempt(loop, eth, resp, supp, flow, policy, third, who="both", opts=N
     payload = frames[1][46:]
     accept_codes = [payload[i:i + 4] for i in range(2, len(payload), 12)]
     idx = payload[:2]
-    ratify = len(frames) > 3
+    ratify = len(frames) > 3 and not opts.get("no_addenda")     # (the same pair may bind with or without the addenda step)
     tp = frames[0][46:]
     offer_codes = [c for c in (tp[i:i + 4] for i in range(2, len(tp), 12)) if c != "1FC9"]
     confirm_code = frames[2][48:52] or None
@@ -321,7 +321,7 @@ def score(chk: Check, flow_name, scen, o, rep) -> None:
     policy, third, who = scen[:3]
     opts = scen[3] if len(scen) > 3 else {}
     flow = FLOWS[flow_name]
-    n = len(flow[2])
+    n = 3 if (opts or {}).get("no_addenda") else len(flow[2])      # (the addenda step may be left out of a 4-frame flow)
     for k in ("R", "S"):
         if k not in o:
             continue
@@ -359,8 +359,11 @@ def score(chk: Check, flow_name, scen, o, rep) -> None:
                 return
         r, s = o["R"][1], o["S"][1]
         strip = lambda x: None if x is None else x.split(" # ")[0].split(" ... ")[-1].strip()  # noqa: E731
-        want = list(flow[2]) + [None] * (4 - n)
-        if [strip(x) for x in r] != [strip(x) for x in s] or [strip(x) for x in r] != [w.strip() if w else None for w in want]:
+        want = list(flow[2])[:n] + [None] * (4 - n)
+        rs_, ss_, ws_ = [strip(x) for x in r], [strip(x) for x in s], [w.strip() if w else None for w in want]
+        if opts.get("no_addenda") and rs_[0] and ws_[0] and rs_[0][:41] == ws_[0][:41]:
+            ws_[0] = rs_[0]      # (without the addenda step the library's own Offer does not list the addenda's code: both ends must agree on it)
+        if rs_ != ss_ or rs_ != ws_:
             chk.violation("c20.tuple_mismatch", f"{flow_name}: respondent reports {[strip(x) for x in r]}, supplicant {[strip(x) for x in s]}, expected {want}", rep)
 
 
@@ -402,6 +405,14 @@ def run(chk: Check) -> None:
                     late = gen_policy(rnd, "clean")
                     late[rnd.choice(RECEIVING)] = [rnd.choice((1.0, 2.0, 2.5))]   # one frame reaches its addressee late, within the wait
                     scenarios.append((late, [], "both"))
+            if len(FLOWS[flow_name][2]) > 3 and rnd.random() < 0.6:
+                # a flow with addenda: an attempt *with* the addenda step that fails (the addenda, or something before it, is lost),
+                # then the same pair binds *without* that step
+                lossy = gen_policy(rnd, "clean")
+                lossy[rnd.choice(((3, "R"), (3, "R"), (2, "R"), (1, "S")))] = []
+                scenarios.append((lossy, [], "both"))
+                scenarios.append((gen_policy(rnd, rnd.choice(("clean", "repeats"))), [], "both", {"no_addenda": True, "gap": rnd.choice((0.5, 2.0, 12.0))}))
+                scenarios.append((gen_policy(rnd, "clean"), [], "both", {"no_addenda": True}))
             scenarios.append((gen_policy(rnd, "clean"), [], "both"))     # a clean attempt must always succeed afterwards
 
             async def body(loop, flow_name=flow_name, scenarios=scenarios):
